@@ -217,6 +217,12 @@ fn solve_once(solver: &mut Solver<Uni>, prob: &Value, want_dump: bool) -> Value 
         }
         Ok(Err(UnsolvableOrCancelled::Unsolvable(conflict))) => {
             out["result"] = json!("unsolvable");
+            if prob["cancel_in_rendering"].as_bool().unwrap_or(false) {
+                // the provider asks for cancellation from now on: building the report must not depend on it
+                let n = solver.provider().calls.borrow().len();
+                solver.provider().calls_at_solve_start.set(n);
+                solver.provider().cancel_after.set(Some(0));
+            }
             let g = std::panic::catch_unwind(std::panic::AssertUnwindSafe(|| {
                 let cg = conflict.graph(solver);
                 let gr = &cg.graph;
@@ -255,6 +261,7 @@ fn solve_once(solver: &mut Solver<Uni>, prob: &Value, want_dump: bool) -> Value 
             }
         }
     }
+    solver.provider().cancel_after.set(None);
     if want_dump {
         out["dump"] = dump_json(solver);
     }
@@ -439,6 +446,73 @@ fn async_solves(v: &Value, prob: &Value, policies: &[u8]) -> Value {
     json!(outs)
 }
 
+/// C20 (observation through the public SolverCache API): cached candidate lists and the availability query
+fn cache_probe(v: &Value) -> Value {
+    use resolvo::runtime::AsyncRuntime;
+    let r = std::panic::catch_unwind(std::panic::AssertUnwindSafe(|| {
+        let uni = Uni::from_json(v);
+        let nvs = uni.vs_name.len() as u32;
+        let nun = uni.unions.len() as u32;
+        let nsolv = uni.solv_name.len() as u32;
+        let npk = uni.pkgs.len() as u32;
+        let cache = SolverCache::new(uni);
+        let rt = resolvo::runtime::NowOrNeverRuntime;
+        let ids = |x: &[SolvableId]| x.iter().map(|s| s.0).collect::<Vec<_>>();
+        let mut vs_out = Vec::new();
+        // order of the queries varies with the version set id so that both "matching first" and "non-matching first" occur
+        for vs in 0..nvs {
+            let id = VersionSetId(vs);
+            let (m, n) = if vs % 2 == 0 {
+                let m = ids(rt.block_on(cache.get_or_cache_matching_candidates(id)).ok().unwrap());
+                let n = ids(rt.block_on(cache.get_or_cache_non_matching_candidates(id)).ok().unwrap());
+                (m, n)
+            } else {
+                let n = ids(rt.block_on(cache.get_or_cache_non_matching_candidates(id)).ok().unwrap());
+                let m = ids(rt.block_on(cache.get_or_cache_matching_candidates(id)).ok().unwrap());
+                (m, n)
+            };
+            let sorted = ids(rt.block_on(cache.get_or_cache_sorted_candidates(Requirement::Single(id))).ok().unwrap());
+            vs_out.push(json!({"vs": vs, "matching": m, "non_matching": n, "sorted": sorted}));
+        }
+        let mut un_out = Vec::new();
+        for u in 0..nun {
+            let sorted = ids(rt.block_on(cache.get_or_cache_sorted_candidates(Requirement::Union(VersionSetUnionId(u)))).ok().unwrap());
+            un_out.push(json!({"u": u, "sorted": sorted}));
+        }
+        for p in 0..npk {
+            let _ = rt.block_on(cache.get_or_cache_candidates(NameId(p)));
+        }
+        let calls_before = cache.provider().calls.borrow().len();
+        // everything again: identical contents, provider not consulted
+        let mut stable = true;
+        for (i, vs) in (0..nvs).enumerate() {
+            let id = VersionSetId(vs);
+            let m = ids(rt.block_on(cache.get_or_cache_matching_candidates(id)).ok().unwrap());
+            let n = ids(rt.block_on(cache.get_or_cache_non_matching_candidates(id)).ok().unwrap());
+            let so = ids(rt.block_on(cache.get_or_cache_sorted_candidates(Requirement::Single(id))).ok().unwrap());
+            stable &= json!(m) == vs_out[i]["matching"] && json!(n) == vs_out[i]["non_matching"] && json!(so) == vs_out[i]["sorted"];
+        }
+        let calls_after = cache.provider().calls.borrow().len();
+        let avail_before: Vec<bool> = (0..nsolv).map(|s| cache.are_dependencies_available_for(SolvableId(s))).collect();
+        let fetched: Vec<u32> = (0..nsolv).filter(|s| s % 3 == 1).collect();
+        for &s in &fetched {
+            let _ = rt.block_on(cache.get_or_cache_dependencies(SolvableId(s)));
+            let _ = rt.block_on(cache.get_or_cache_dependencies(SolvableId(s)));
+        }
+        let avail_after: Vec<bool> = (0..nsolv).map(|s| cache.are_dependencies_available_for(SolvableId(s))).collect();
+        let dep_calls = cache.provider().calls.borrow().iter().filter(|c| c.0 == 1).count();
+        json!({"version_sets": vs_out, "unions": un_out, "stable": stable, "provider_calls_on_repeat": calls_after - calls_before,
+               "avail_before": avail_before, "fetched": fetched, "avail_after": avail_after, "dependency_calls": dep_calls})
+    }));
+    match r {
+        Ok(v) => v,
+        Err(p) => {
+            let msg = p.downcast_ref::<String>().cloned().or_else(|| p.downcast_ref::<&str>().map(|s| s.to_string()));
+            json!({"panic": msg.unwrap_or_default()})
+        }
+    }
+}
+
 /// verdict + solution only (used for the snapshot provider, C16)
 fn solve_simple<D: DependencyProvider, RT: resolvo::runtime::AsyncRuntime>(solver: &mut Solver<D, RT>, prob: &Value) -> Value {
     let reqs: Vec<Requirement> = prob["req"].as_array().unwrap().iter().map(req_of).collect();
@@ -530,6 +604,9 @@ fn main() {
             outs.push(solve_once(&mut solver, p, want_dump));
         }
         let mut out = json!({"id": v["id"], "solves": outs});
+        if v["cache_probe"].as_bool().unwrap_or(false) {
+            out["cache"] = cache_probe(&v);
+        }
         if v["async_policies"].is_array() {
             let pol: Vec<u8> = u32s(&v["async_policies"]).into_iter().map(|x| x as u8).collect();
             out["async"] = async_solves(&v, &problems[0], &pol);
